@@ -1,3 +1,3 @@
 From Coq Require Extraction ExtrOcamlBasic.
 From V Require Import Model.MiniGo Model.Compr.
-Extraction "c02model.ml" lower_comprehension lower_forphrase lower_send lower_send_all spec_comprehension eval exec lookup.
+Extraction "c02model.ml" lower_comprehension lower_forphrase lower_send lower_send_all spec_comprehension pure_op comp_op strip eval exec lookup.
